@@ -53,6 +53,10 @@ let handle cmd =
     (match wps_code_model u s1 s2 (if b < 0 then Inf else Fin (z_of_int b)) fc with
      | None -> "none"
      | Some (d, m) -> str_cost d ^ " | " ^ str_matrix m)
+  | "wpath" -> let u = rd_usettings () in let s1 = rd_series () in let s2 = rd_series () in
+    let ((i, j), p) = warping_path_model u s1 s2 in
+    string_of_int (int_of_nat i) ^ "," ^ string_of_int (int_of_nat j) ^ " | " ^
+    String.concat " " (List.map (fun (a, b) -> string_of_int (int_of_nat a) ^ "," ^ string_of_int (int_of_nat b)) p)
   | "wps" -> let u = rd_usettings () in let s1 = rd_series () in let s2 = rd_series () in
     str_matrix (wps_matrix u s1 s2)
   | "bp" -> let u = rd_usettings () in let s1 = rd_series () in let s2 = rd_series () in
